@@ -252,6 +252,49 @@ impl Prop for C03 {
             max_sched: 200,
             max_extra: 24,
         }),
+        // compressed runs: hundreds of compressed clusters packed into a long run of host clusters,
+        // small refcount-block slices, single-block writes all over them: every copy-on-write
+        // releases the one or two host clusters its compressed data overlapped, some of them at
+        // refcount-slice and refcount-block boundaries
+        Box::new(SeqDomain {
+            name: "comp",
+            quick: 2_500,
+            thorough: 80_000,
+            profile: || Profile {
+                max_ops: 40,
+                op_weights: [70, 4, 6, 12, 1, 3, 4],
+                cb_weights: [80, 20, 0, 0, 0, 0],
+                max_cluster_bits: 10,
+                order_weights: Some([0, 1, 1, 2, 10, 26, 60]),
+                max_clusters: 900,
+                vsize_weights: [0, 5, 95, 0],
+                max_write_clusters: 2,
+                depth_weights: [100, 0, 0, 0],
+                formatted_pct: 0,
+                kind_weights: [12, 8, 0, 0, 80],
+                kinds_cycle: true,
+                small_rb_slices_pct: 85,
+                sched_pct: 10,
+                ..Profile::default()
+            },
+            cfg: || SeqCfg {
+                sweep: false,
+                check_on_flush: true,
+                reopen_on_flush: false,
+                mapping_check: false,
+                align: false,
+                final_flush: true,
+                release_check: true,
+                ..SeqCfg::default()
+            },
+            owns: |v| matches!(v.rule, Rule::CheckCorrupt | Rule::CheckUnder | Rule::CheckLeak),
+            nontrivial: |r, _| r.stats.checker_runs > 0 && r.stats.cow_writes > 0,
+            tweak: force_final_flush,
+            case_tags: no_tags,
+            extra_classes: no_classes,
+            max_sched: 200,
+            max_extra: 24,
+        }),
         // fragmentation: hundreds of small clusters, long writes and discards, refcount blocks made
         // of many 512-byte slices (64..256 clusters each), so that allocations have to be pieced
         // together from the free tail of one slice and the next slice, retried and given back
